@@ -33,6 +33,7 @@ def run(rep, tier):
     self_intersection(rep, F)
     from . import c05
     c05.winding_table(rep, F, rule="R14.7")
+    helper_tables(rep, F)
 
 
 def defaults(rep, F):
@@ -505,3 +506,118 @@ def self_intersection(rep, F):
     # who calls it: every ring of a polygon (exterior and interiors) and line strings are tested
     users = sorted({short(g.path) for g in F.lib_fns(("geo",)) for c in g.calls() if (c.path or "").endswith("utils::linestring_has_self_intersection")})
     rep.info["self_intersection_callers"] = users
+
+
+def helper_tables(rep, F):
+    """R14.8: the elementary checks the validation tables treat as symbols, decided on witnesses through their own path tables:
+    check_coord_is_not_finite(c) is true exactly when x or y is NaN / infinite; check_too_few_points(ring) exactly when fewer than 4 (ring) /
+    2 (line) coordinates remain after removing consecutive repetitions; robust_check_points_are_collinear is the exact orientation test;
+    LineString::remove_repeated_points is dedup() of a clone of the coordinates."""
+    import itertools
+    from ..numeval import NumEval
+    from ..evalterm import NoModel
+    rep.rule("R14.8", "validation helpers on witnesses: check_coord_is_not_finite <=> x or y not finite; check_too_few_points <=> fewer than 4 (ring) / 2 (line) coordinates after removing consecutive repetitions (0..5 coordinates); robust_check_points_are_collinear <=> exact orientation is zero; remove_repeated_points = dedup of the coordinates")
+    V = "geo::algorithm::validation::utils::"
+    GT = "geo_types::geometry::"
+    n_ok = 0
+    inf, nan = float("inf"), float("nan")
+    # finite
+    try:
+        fn = F.one(r"^%scheck_coord_is_not_finite$" % V, crates=("geo",))
+        paths = [p for p in Symex(F, inline_crates=("geo", "geo_types")).run(fn) if p.kind != "cut"]
+        bad = None
+        for x, y in itertools.product((0.0, -3.5, inf, -inf, nan), repeat=2):
+            ev = NumEval(F, {("arg", 1): {"x": x, "y": y}})
+            hit = ev.select_path(paths)
+            got = [bool(ev.ev(h.ret)) for h in hit if h.kind == "ret"]
+            want = not (x == x and y == y and abs(x) != inf and abs(y) != inf)
+            if got != [want]:
+                bad = "check_coord_is_not_finite((%s, %s)) = %s" % (x, y, got)
+                break
+        if bad:
+            rep.bad("R14.8", "helper:finite", bad, where=fn.loc())
+        else:
+            n_ok += 1
+            rep.ok("R14.8", "helper:finite[25 witnesses]")
+    except (KeyError, Unanalysable, NoModel, TypeError) as e:
+        rep.bad("R14.8", "helper:finite:unanalysable", str(e))
+    # too few points
+    try:
+        fn = F.one(r"^%scheck_too_few_points$" % V, crates=("geo",))
+        paths = [p for p in Symex(F, inline_crates=("geo", "geo_types"), no_inline=[r"::remove_repeated_points$"]).run(fn) if p.kind != "cut"]
+
+        class Ev(NumEval):
+            def call(self, t):
+                if t[1].rsplit("::", 1)[-1] == "remove_repeated_points" and len(t[2]) == 1:
+                    v = self.ev(t[2][0])
+                    cs = v["0"]
+                    out = []
+                    for c in cs:
+                        if not out or out[-1] != c:
+                            out.append(c)
+                    return {"0": out}
+                return NumEval.call(self, t)
+        bad = None
+        k = 0
+        pts = [{"x": 0, "y": 0}, {"x": 1, "y": 0}, {"x": 1, "y": 1}]
+        for n in range(0, 6):
+            for cs in itertools.product(pts, repeat=n):
+                for is_ring in (True, False):
+                    ev = Ev(F, {("arg", 1): {"0": list(cs)}, ("arg", 2): is_ring})
+                    hit = ev.select_path(paths)
+                    got = [bool(ev.ev(h.ret)) for h in hit if h.kind == "ret"]
+                    d = [c for i, c in enumerate(cs) if i == 0 or cs[i - 1] != c]
+                    want = len(d) < (4 if is_ring else 2)
+                    k += 1
+                    if got != [want]:
+                        bad = "check_too_few_points(%s, is_ring = %s) = %s; %d coordinates remain after removing repetitions" % ([(c["x"], c["y"]) for c in cs], is_ring, got, len(d))
+                        break
+                if bad:
+                    break
+            if bad:
+                break
+        if bad:
+            rep.bad("R14.8", "helper:too-few-points", bad, where=fn.loc())
+        else:
+            n_ok += 1
+            rep.ok("R14.8", "helper:too-few-points[%d witnesses]" % k)
+    except (KeyError, Unanalysable, NoModel, TypeError) as e:
+        rep.bad("R14.8", "helper:too-few-points:unanalysable", str(e))
+    # collinear
+    try:
+        fn = F.one(r"^%srobust_check_points_are_collinear$" % V, crates=("geo",))
+        paths = [p for p in Symex(F, inline_crates=("geo", "geo_types")).run(fn) if p.kind != "cut"]
+        grid = [{"x": float(x), "y": float(y)} for x in range(3) for y in range(3)]
+        bad = None
+        for a, b, c in itertools.product(grid, repeat=3):
+            ev = NumEval(F, {("arg", 1): a, ("arg", 2): b, ("arg", 3): c})
+            hit = ev.select_path(paths)
+            got = [bool(ev.ev(h.ret)) for h in hit if h.kind == "ret"]
+            want = (b["x"] - a["x"]) * (c["y"] - b["y"]) - (b["y"] - a["y"]) * (c["x"] - b["x"]) == 0
+            if got != [want]:
+                bad = "robust_check_points_are_collinear(%s, %s, %s) = %s" % ((a["x"], a["y"]), (b["x"], b["y"]), (c["x"], c["y"]), got)
+                break
+        if bad:
+            rep.bad("R14.8", "helper:collinear", bad, where=fn.loc())
+        else:
+            n_ok += 1
+            rep.ok("R14.8", "helper:collinear[729 witnesses]")
+    except (KeyError, Unanalysable, NoModel, TypeError) as e:
+        rep.bad("R14.8", "helper:collinear:unanalysable", str(e))
+    # remove_repeated_points = LineString(dedup(clone(self.0)))
+    try:
+        fn = F.impl_method("geo::algorithm::remove_repeated_points::RemoveRepeatedPoints", r"^%sline_string::LineString<T>$" % GT, None, "remove_repeated_points", crates=("geo",))
+        ps = [p for p in Symex(F, inline_crates=()).run(fn) if p.kind == "ret"]
+        ok = len(ps) == 1 and not ps[0].pc
+        if ok:
+            dd = [e for e in ps[0].trace if e[0] == "call" and e[1].endswith("::dedup")]
+            r = show(ps[0].ret)
+            ok = len(dd) == 1 and "a1.0" in show(dd[0][2][0]) and r.startswith("LineString::LineString(havoc(") and "a1.0" in r
+        if ok:
+            n_ok += 1
+            rep.ok("R14.8", "helper:remove_repeated_points")
+        else:
+            rep.bad("R14.8", "helper:remove_repeated_points", "LineString::remove_repeated_points is not LineString(dedup(clone of the coordinates)): %s" % (show(ps[0].ret)[:120] if ps else "no path"), where=fn.loc())
+    except (KeyError, Unanalysable) as e:
+        rep.bad("R14.8", "helper:remove_repeated_points:unanalysable", str(e))
+    rep.floor("R14.8", "validation helper tables", n_ok, 4)
